@@ -34,10 +34,14 @@ for pid, meta in sorted(contracts.PROPERTIES.items()):
         "engine": "pyvc",
         "level_claimed": {
             "category": "proof",
-            "text": meta.get("level_text", "proof of named function-level obligations"),
-            "design_ref": meta.get("design_ref", "DESIGN.md section 4"),
+            "text": ("Deductive proof, for all inputs, of the named function-level obligations generated from /repo's current source "
+                     "(every obligation unsat in z3 or cvc5). Decided clauses: " + " | ".join(meta.get("decided", []))
+                     + ". A change that breaks one fails that obligation; counter-models are replayed on the real code."),
+            "design_ref": "DESIGN.md sections 0, 2.10 and 4",
         },
-        "level_note": meta.get("level_note", ""),
+        "level_note": ("NOT decided by this check: " + " | ".join(meta.get("not_decided", [])) + ". Trusted base: pyvc engine and builtin models "
+                       "(facts about CPython builtins sampled against the interpreter on every run), z3 5.1, cvc5 1.0.3, python ints as "
+                       "mathematical integers; " + " | ".join(meta.get("trusted_base", []) + meta.get("assumptions", []))),
         "technique": "contract-based deductive verification: VCs generated from the real Python source (ast, re-read every run) against sidecar contracts, discharged by z3 5.1 / cvc5 1.0.3",
     })
     NA.pop(pid, None)
